@@ -291,3 +291,37 @@ STATEFUL_OBJECTS = Contract(
     frame=[],
     props=["C03", "C10", "C05"],
 )
+
+
+# ---------------------------------------------------------------- shared_result_worker_ids (C01, C08)
+ALL_IDS = "[w.id for s in TestSwarm.run_swarms.values() for w in s.workers]"
+IS_WORKER_ID = ("exists(STR, lambda s: s in TestSwarm.run_swarms and exists(TestSwarm.run_swarms[s].workers, "
+                "lambda w: w.id == wid))")
+
+
+def produced(upto):
+    return (f"exists(range(0, {upto}), lambda j: self.shared_results[j]['status'] == 'PASS' and "
+            f"wid in self.shared_results[j]['name'])")
+
+
+RESULT_WORKER_IDS = Contract(
+    target=f"{NODE}::TestNode.shared_result_worker_ids",
+    params={"self": Ref("TestNode")},
+    requires=[WF_BRIDGED, WF_RESULTS, WF_SWARMS, "wf_map(TestSwarm.run_swarms)"],
+    overrides={"TestNode.shared_results": by_contract(SHARED_RESULTS)},
+    extra_names={"bridged_results_len": BRL},
+    loops={
+        0: {"invariants": [f"forall(STR, lambda wid: implies(wid in workers, {IS_WORKER_ID} and {produced('_i')}))"],
+            "kinds": {"workers": SetK(STR), "worker_ids": Seq(STR), "worker_id": STR}},
+        1: {"invariants": [f"forall(STR, lambda wid: implies(wid in workers, {IS_WORKER_ID} and {produced('_i0')}))",
+                           "forall(range(0, _i), lambda k: worker_ids[k] not in result['name'])"],
+            "kinds": {"workers": SetK(STR)}},
+    },
+    ensures=[
+        ("only_producers", f"forall(STR, lambda wid: implies(wid in result, {IS_WORKER_ID} and "
+                           f"{produced('len(self.shared_results)')}))"),
+    ],
+    result_kind=SetK(STR),
+    frame=[],
+    props=["C08", "C01"],
+)
